@@ -243,6 +243,16 @@ def run_problem(ctx, g, rng, high_e=False):
                     ctx.count("roundoff_exceedance_illconditioned")
 
 
+def setup(ctx):
+    """translator self-check against the compiled binary, on the revision the binary was built from"""
+    import transcheck
+    r = transcheck.run(ctx, ctx.case_rng("transcheck", 0))
+    ctx.extra["translator_selfcheck"] = r
+    ctx.log(f"[twin] translator self-check: {r}")
+    if r["status"] == "compared" and not r["max_rel_dev"] <= 1e-9:
+        raise core.Infra(f"pyx->Python translator disagrees with the compiled binary on the revision it was built from: {r}")
+
+
 def run_case(ctx, g):
     ctx.seed = g.get("seed", ctx.seed)
     rng = ctx.case_rng(g["kind"], g["index"])
